@@ -29,7 +29,8 @@ type rlEntry struct {
 
 // rlOp is one operation of a history (also the replayable description).
 type rlOp struct {
-	K     string    `json:"k"` // hs | app | snap | compact | flsm | fhs | fapp | crash
+	K     string    `json:"k"` // hs | app | snap | compact | flsm | fill | fhs | fapp | crash
+	Pad   int       `json:"pad,omitempty"` // extra payload bytes per entry / LSM record / snapshot (forces size-based WAL rotation)
 	Term  uint64    `json:"term,omitempty"`
 	Vote  uint64    `json:"vote,omitempty"`
 	Com   uint64    `json:"com,omitempty"`
@@ -55,7 +56,7 @@ func (o rlOp) coq() string {
 		return fmt.Sprintf("(OSnap %d %d)", o.Idx, o.Term)
 	case "compact":
 		return fmt.Sprintf("(OCompact %d)", o.Idx)
-	case "flsm":
+	case "flsm", "fill":
 		return "(OForeign FLsm)"
 	case "fhs":
 		return fmt.Sprintf("(OForeign (FState (H %d %d %d)))", o.Term, o.Vote, o.Com)
@@ -79,9 +80,29 @@ func tokBytes(d uint64) []byte {
 	return b
 }
 
+const padByte = 0xAB
+
+// padded payload: one token byte followed by pad bytes (tokens of padded entries are < 256)
+func padData(d uint64, pad int) []byte {
+	if pad <= 0 {
+		return tokBytes(d)
+	}
+	b := make([]byte, 1+pad)
+	b[0] = byte(d)
+	for i := 1; i < len(b); i++ {
+		b[i] = padByte
+	}
+	return b
+}
+
 func bytesTok(b []byte) uint64 {
 	if len(b) > 8 {
-		return math.MaxUint32
+		for _, x := range b[1:] {
+			if x != padByte {
+				return math.MaxUint32
+			}
+		}
+		return uint64(b[0])
 	}
 	var d uint64
 	for _, x := range b {
@@ -90,10 +111,10 @@ func bytesTok(b []byte) uint64 {
 	return d
 }
 
-func mkEntries(first uint64, es []rlEntry) []myraft.Entry {
+func mkEntries(first uint64, es []rlEntry, pad int) []myraft.Entry {
 	out := make([]myraft.Entry, len(es))
 	for i, e := range es {
-		out[i] = myraft.Entry{Index: first + uint64(i), Term: e.T, Data: tokBytes(e.D)}
+		out[i] = myraft.Entry{Index: first + uint64(i), Term: e.T, Data: padData(e.D, pad)}
 	}
 	return out
 }
@@ -102,6 +123,7 @@ func mkEntries(first uint64, es []rlEntry) []myraft.Entry {
 // raft groups' storages living in dir.
 type rlNode struct {
 	dir string
+	seg int64 // wal.Config.SegmentSize (0 = default 64 MiB)
 	w   *wal.Manager
 	man *manifest.Manager
 	ws1 *engine.WALStorage
@@ -147,12 +169,14 @@ func guard(f func() error) (err error) {
 }
 
 // openNode opens the directory the way a starting process does.
-func openNode(dir string) (*rlNode, error) {
-	n := &rlNode{dir: dir}
+const smallSegment = 64 << 10 // wal.minSegmentSize
+
+func openNode(dir string, segSize int64) (*rlNode, error) {
+	n := &rlNode{dir: dir, seg: segSize}
 	if err := wal.VerifyDir(dir, nil); err != nil {
 		return nil, fmt.Errorf("verifydir: %v", err)
 	}
-	w, err := wal.Open(wal.Config{Dir: dir})
+	w, err := wal.Open(wal.Config{Dir: dir, SegmentSize: segSize})
 	if err != nil {
 		return nil, fmt.Errorf("wal.Open: %v", err)
 	}
@@ -260,7 +284,7 @@ func (n *rlNode) probe() (string, bool, error) {
 		return "", false, err
 	}
 	defer os.RemoveAll(img)
-	p, err := openNode(img)
+	p, err := openNode(img, n.seg)
 	defer p.close()
 	if p == nil {
 		return "", false, err
@@ -278,27 +302,38 @@ func (n *rlNode) apply(o rlOp) error {
 			return n.ws1.SetHardState(myraft.HardState{Term: o.Term, Vote: o.Vote, Commit: o.Com})
 		})
 	case "app":
-		return guard(func() error { return n.ws1.Append(mkEntries(o.First, o.Ents)) })
+		return guard(func() error { return n.ws1.Append(mkEntries(o.First, o.Ents, o.Pad)) })
 	case "snap":
 		return guard(func() error {
 			var s myraft.Snapshot
 			s.Metadata.Index = o.Idx
 			s.Metadata.Term = o.Term
 			s.Metadata.ConfState.Voters = []uint64{1, 2, 3}
-			s.Data = []byte{byte(o.Idx)}
+			s.Data = padData(o.Idx&0xff, o.Pad)
 			return n.ws1.ApplySnapshot(s)
 		})
 	case "compact":
 		return guard(func() error { return n.ws1.MaybeCompact(o.Idx+1, 1) })
 	case "flsm":
-		_, err := n.w.Append([]byte{0xde, 0xad, byte(o.Idx)})
+		b := make([]byte, 3+o.Pad)
+		b[0], b[1], b[2] = 0xde, 0xad, byte(o.Idx)
+		_, err := n.w.Append(b)
+		return err
+	case "fill":
+		// an LSM record sized so that o.Idx bytes stay free in the active segment: the next
+		// record larger than that is the first record of an auto-rotated segment
+		size := int(n.seg) - int(n.w.ActiveSize()) - 9 - int(o.Idx)
+		if size < 1 {
+			size = 1
+		}
+		_, err := n.w.Append(make([]byte, size))
 		return err
 	case "fhs":
 		return guard(func() error {
 			return n.ws2.SetHardState(myraft.HardState{Term: o.Term, Vote: o.Vote, Commit: o.Com})
 		})
 	case "fapp":
-		return guard(func() error { return n.ws2.Append(mkEntries(o.First, o.Ents)) })
+		return guard(func() error { return n.ws2.Append(mkEntries(o.First, o.Ents, o.Pad)) })
 	}
 	return fmt.Errorf("unknown op %q", o.K)
 }
@@ -309,7 +344,13 @@ func runHistory(c *corr.Ctx, ops []rlOp) (corr.Case, error) {
 	if err != nil {
 		return corr.Case{}, err
 	}
-	n, err := openNode(dir)
+	var segSize int64
+	for _, o := range ops {
+		if o.Pad > 0 || o.K == "fill" {
+			segSize = smallSegment
+		}
+	}
+	n, err := openNode(dir, segSize)
 	if err != nil {
 		return corr.Case{}, fmt.Errorf("fresh open: %v", err)
 	}
@@ -322,6 +363,7 @@ func runHistory(c *corr.Ctx, ops []rlOp) (corr.Case, error) {
 	}()
 	var steps []string
 	lost, recovered, failedReopen := false, 0, false
+	rotatedByRaft := 0
 	for _, o := range ops {
 		var out string
 		if o.K == "crash" {
@@ -331,7 +373,7 @@ func runHistory(c *corr.Ctx, ops []rlOp) (corr.Case, error) {
 			}
 			dirs = append(dirs, img)
 			old := n
-			nn, err := openNode(img)
+			nn, err := openNode(img, n.seg)
 			old.close() // flushes into the abandoned directory only
 			if nn == nil {
 				return corr.Case{}, err
@@ -353,7 +395,14 @@ func runHistory(c *corr.Ctx, ops []rlOp) (corr.Case, error) {
 			out = "OK"
 			c.Count("op_crash")
 		} else {
+			segBefore := n.w.ActiveSegment()
 			err := n.apply(o)
+			if n.w.ActiveSegment() != segBefore {
+				c.Count("auto_rotation_by_" + o.K)
+				if o.K == "hs" || o.K == "app" || o.K == "snap" {
+					rotatedByRaft++
+				}
+			}
 			out = classifyRaftErr(err)
 			c.Count("op_" + o.K)
 			if err != nil {
@@ -373,6 +422,9 @@ func runHistory(c *corr.Ctx, ops []rlOp) (corr.Case, error) {
 		steps = append(steps, fmt.Sprintf("St %s %s (Some %s) %s", o.coq(), out, observeWS(n.ws1), pr))
 	}
 	_ = lost
+	if rotatedByRaft > 0 {
+		c.Count("histories_with_raft_record_first_in_rotated_segment")
+	}
 	_ = failedReopen
 	return corr.Case{Coq: "Cs " + corr.List(steps), Nontrivial: recovered >= 3, Desc: ops}, nil
 }
@@ -384,7 +436,7 @@ type rlShadow struct {
 	last2                 uint64
 }
 
-func genHistory(c *corr.Ctx) []rlOp {
+func genHistoryBase(c *corr.Ctx) []rlOp {
 	r := c.Rng
 	var sh rlShadow
 	sh.term = 1
@@ -480,9 +532,48 @@ func genHistory(c *corr.Ctx) []rlOp {
 	return ops
 }
 
+// genHistory: two histories in five run on a WAL with the minimal segment size and
+// carry large payloads and "fill" records, so that the manager's size-based rotation
+// happens inside AppendRecords, often with a raft record as the first record of the new
+// segment; a crash image is taken after every record as always.
+func genHistory(c *corr.Ctx) []rlOp {
+	ops := genHistoryBase(c)
+	r := c.Rng
+	if r.Intn(5) >= 2 {
+		return ops
+	}
+	var out []rlOp
+	for _, o := range ops {
+		switch o.K {
+		case "hs", "app", "snap":
+			if r.Intn(10) < 4 {
+				out = append(out, rlOp{K: "fill", Idx: uint64(r.Intn(40))})
+			}
+		}
+		switch o.K {
+		case "app", "fapp":
+			if len(o.Ents) > 0 {
+				o.Pad = 2000 + r.Intn(18000)
+			}
+		case "flsm":
+			o.Pad = r.Intn(30000)
+		case "snap":
+			if r.Intn(2) == 0 {
+				o.Pad = 1 + r.Intn(6000)
+			}
+		}
+		out = append(out, o)
+	}
+	if len(out) > 0 && out[0].K != "fill" && out[0].Pad == 0 {
+		out[0].Pad = 0 // small segments are selected by any padded op or fill below
+		out = append([]rlOp{{K: "flsm", Pad: 1 + r.Intn(2000)}}, out...)
+	}
+	return out
+}
+
 func runRaftlog(c *corr.Ctx) error {
 	c.Meta("run_module", "RunRaftStore")
-	c.Meta("rule", "random histories of 5..14 operations on a real WALStorage (group 1) sharing one wal.Manager+manifest with a second group and raw LSM appends: hard states (chain, with rare regressions and empty states), appends (tail, conflicting overwrite, at/below snapshot, rare gap and empty), snapshots (newer, rare stale/empty), compactions, crash+reopen; after EVERY operation a crash image of the directory is reopened with the real code and InitialState/Snapshot/FirstIndex/LastIndex/Entries are compared with the model and with the persisted-history oracle. non-trivial = at least 3 crash images reopened successfully; distinct by Gallina term")
+	c.Meta("rule", "random histories of 5..14 operations on a real WALStorage (group 1) sharing one wal.Manager+manifest with a second group and raw LSM appends: two histories in five on a WAL with 64 KiB segments, payloads of 2..30 KB and fill records so that size-based rotation happens inside AppendRecords (often with a raft record first in the new segment); hard states (chain, with rare regressions and empty states), appends (tail, conflicting overwrite, at/below snapshot, rare gap and empty), snapshots (newer, rare stale/empty), compactions, crash+reopen; after EVERY operation a crash image of the directory is reopened with the real code and InitialState/Snapshot/FirstIndex/LastIndex/Entries are compared with the model and with the persisted-history oracle. non-trivial = at least 3 crash images reopened successfully; distinct by Gallina term")
 	c.Meta("exhaustive", false)
 	if c.Replay != "" {
 		cases, err := c.ReplayCases()
@@ -511,6 +602,19 @@ func runRaftlog(c *corr.Ctx) error {
 		{{K: "app", First: 1, Ents: []rlEntry{{1, 1}, {1, 2}}}, {K: "snap", Idx: 5, Term: 3}, {K: "flsm"},
 			{K: "app", First: 6, Ents: []rlEntry{{3, 1}}}, {K: "crash"}, {K: "hs", Term: 3, Vote: 1, Com: 6}},
 	}
+	fixed = append(fixed,
+		// a raft record is the first record of a segment created by size-based rotation; crash right after
+		[]rlOp{{K: "hs", Term: 3, Vote: 2}, {K: "fill", Idx: 5}, {K: "app", First: 1, Ents: []rlEntry{{3, 7}}}},
+		[]rlOp{{K: "app", First: 1, Ents: []rlEntry{{1, 1}, {1, 2}}}, {K: "fill", Idx: 0}, {K: "hs", Term: 2, Vote: 1, Com: 1},
+			{K: "crash"}, {K: "app", First: 3, Ents: []rlEntry{{2, 3}}}},
+		[]rlOp{{K: "app", First: 1, Ents: []rlEntry{{1, 1}, {1, 2}}}, {K: "hs", Term: 1, Vote: 1}, {K: "fill", Idx: 12}, {K: "snap", Idx: 2, Term: 1},
+			{K: "fhs", Term: 1, Vote: 2}, {K: "app", First: 3, Ents: []rlEntry{{1, 9}}}},
+		// large entries: every few appends cross a 64 KiB segment
+		[]rlOp{{K: "hs", Term: 3, Vote: 2}, {K: "app", First: 1, Ents: []rlEntry{{3, 1}, {3, 2}}, Pad: 9000},
+			{K: "app", First: 3, Ents: []rlEntry{{3, 3}, {3, 4}}, Pad: 9000}, {K: "app", First: 5, Ents: []rlEntry{{3, 5}, {3, 6}}, Pad: 9000},
+			{K: "app", First: 7, Ents: []rlEntry{{3, 7}, {3, 8}}, Pad: 9000}, {K: "crash"}, {K: "app", First: 8, Ents: []rlEntry{{4, 9}}, Pad: 9000},
+			{K: "hs", Term: 4, Vote: 1, Com: 7}},
+	)
 	for _, ops := range fixed {
 		cs, err := runHistory(c, ops)
 		if err != nil {
